@@ -81,6 +81,7 @@ class Check:
         self.assumptions = list(assumptions)
         self.extra = {}
         self.samples = []
+        self._seen_inst = {}
 
     # --------------------------------------------------------------- rules
     def rule(self, rid, text):
@@ -89,6 +90,10 @@ class Check:
     def instance(self, rule, where, what, ok, argument='', nontrivial=False,
                  loc='', sample=False):
         """Record one examined rule instance (an obligation)."""
+        what_n = norm_construct(what)
+        dkey = (rule, where, what_n, bool(ok))
+        if dkey in self._seen_inst:
+            return self._seen_inst[dkey]
         self.obligations += 1
         if ok:
             self.discharged += 1
@@ -100,6 +105,7 @@ class Check:
             'verdict': 'holds' if ok else 'violated',
             'argument': argument
         }
+        self._seen_inst[dkey] = rec
         self.instances.append(rec)
         if nontrivial:
             self.nontrivial.add((rule, where, rec['what']))
